@@ -43,6 +43,7 @@ class H2Script:
         self.goaway = list(cfg.get("goaway", []))
         self.goaway_budget = 1 if self.goaway else 0
         self.rst = cfg.get("rst", 0)
+        self.rst_code = cfg.get("rst_code", 8)
         self.settings = list(cfg.get("settings", []))
         self.ping = cfg.get("ping", 0)
         self.mfs = list(cfg.get("mfs", []))        # SETTINGS_MAX_FRAME_SIZE values the server may send (once each)
@@ -81,7 +82,7 @@ class H2Script:
                 if self.rst > 0 and s.headers is not None and not s.closed and not s.resp_sent_end:
                     def rst(conn=conn, s=s):
                         self.rst -= 1
-                        conn.send_rst(s.id)
+                        conn.send_rst(s.id, self.rst_code)
                     out.append((f"rst{tag}", rst))
                 if self.wu_budget > 0 and s.headers is not None and not s.end_stream and not s.closed:
                     for tgt, inc in self.wu:
@@ -260,6 +261,8 @@ class ConcHarness:
 
         specs = []
         warm = []
+        last_trace_event: dict = {}
+        self._last_trace_event = last_trace_event
         for i, cs in enumerate(self.callers):
             parts = cs.split(":")
             kind, origin, opts = parts[0], parts[1], parts[2:]
@@ -272,8 +275,9 @@ class ConcHarness:
             url = scen.url_for(ct, host=f"{origin}.example", token=tok)
             specs.append((name, kind, tok, opts))
             if self.trace:
-                async def _suspending_trace(event_name, info):
+                async def _suspending_trace(event_name, info, _who=name):
                     import anyio.lowlevel
+                    last_trace_event[_who] = event_name      # root-cause fact: which event's callback a cancellation lands in / right after
                     await anyio.lowlevel.checkpoint()
                 ext = dict(ext, trace=_suspending_trace)
 
@@ -440,6 +444,8 @@ class ConcHarness:
         base["write_cancelled"] = any(op.kind == "write" and op.state == "cancelled" for op in w.net.ledger)
         if self.trace:
             base["trace"] = True        # the requests carry a suspending trace callback (extra cancellation points inside Trace)
+            vics = [c["name"] for c in w.callers if c.get("cancel_delivered")]
+            base["trace_event"] = self._last_trace_event.get(vics[0]) if vics else None
         base["pool_timeout_race"] = any(isinstance(c["result"], tuple) and c["result"][0] == "exc" and isinstance(c["result"][1], httpcore.PoolTimeout)
                                         for c in w.callers)
         desc = f"ct={self.ct} callers={self.callers} N={self.max_connections} trigger={trig} site={base.get('site')} events={w.events_log[-25:]}"
@@ -799,6 +805,11 @@ def scenarios(pid, tier):
             out.append(S(ct, ["req:a:w", "up9:a", "req:a"], max_connections=1, h2cfg={"window_policy": "manual", "initial_window": 4},
                          h2script={"wu": [["stream", 70000]], "wu_budget": 1, "frag": 2}, early=False))
     if pid == "C02":
+        # a stream reset at every point of its response, with NO_ERROR and with CANCEL: a body cut short is an error, never a shorter body
+        for ct in (["h2pk"] if quick else ["h2pk", "h2alpn"]):
+            for code in (0, 8):
+                out.append(S(ct, ["req:a:w", "req:a"], max_connections=1, h2script={"frag": 2, "rst": 1, "rst_code": code}, early=False))
+    if pid == "C02":
         # the task that reads on behalf of every stream is cancelled at each of its suspension points: the others' bodies must stay whole
         for ct in (["h2pk"] if quick else ["h2pk", "h2alpn"]):
             out.append(S(ct, ["req:a:w", "req:a:v", "req:a"], max_connections=1, cancels=1, styles=["scope"] if quick else ["scope", "native"],
@@ -841,6 +852,9 @@ def scenarios(pid, tier):
         out.append(S("h2pk", ["req:a", "req:a"], max_connections=2, h2script={"goaway": [1, 3], "rst": 1}, early=False))
         out.append(S("h2pk", ["post:a", "req:a"], max_connections=2, faults=1, fault_set="all"))
         out.append(S("h2alpn", ["req:a:w", "post:a", "req:a"], max_connections=2, faults=1, fault_set="all", early=False))
+        # the pool is closed while one request is in flight and another is queued: documented errors only, and nobody hangs
+        out.append(S("h11", ["hold:a", "req:b:pt=5", "closepool:a:late"], max_connections=1, probe=False))
+        out.append(S("h11", ["hold:a", "req:b", "closepool:a:late"], max_connections=1, probe=False))
     if pid == "C20":
         # failures after establishment are never retried - also not through the pool's "connection not available" re-send path:
         # GOAWAY naming the request's own stream (or a later one) as processed must surface as an error, written once
